@@ -328,8 +328,24 @@ pub fn reach(u: &Universe, p: &Problem, sol: &[SRef], seeds: &[SRef]) -> BTreeSe
 /// gives a selection that is valid and in which each requirement is met *only* by its own
 /// first choice.
 pub fn first_choice_closure(u: &Universe, p: &Problem) -> Option<BTreeSet<SRef>> {
+    first_choice_closure_seeded(u, p, &[])
+}
+
+/// The same with additional directly requested solvables (`seeds`, e.g. accepted soft
+/// requirements): the closure starts from the root requirements and the seeds; the result
+/// (including the seeds) must be valid and every requirement must be met only by its own
+/// first choice.
+pub fn first_choice_closure_seeded(u: &Universe, p: &Problem, seeds: &[SRef]) -> Option<BTreeSet<SRef>> {
     let mut g: BTreeSet<SRef> = BTreeSet::new();
     let mut all_reqs: Vec<Req> = p.reqs.clone();
+    for &s in seeds {
+        if g.insert(s) {
+            match &u.cand(s).deps {
+                Deps::Unknown(_) => return None,
+                Deps::Known { reqs, .. } => all_reqs.extend(reqs.iter().cloned()),
+            }
+        }
+    }
     let mut i = 0;
     while i < all_reqs.len() {
         let r = all_reqs[i].clone();
